@@ -222,6 +222,10 @@ func (e *SpecEnv) Eval(x SExpr) SV {
 				return SV{Term: e.Cur.Heap(h), Typ: v.Type()}
 			}
 		}
+		if e.G.CS != nil && e.G.CS.GhostNames[x.Name] {
+			// ghost integer constant: one SMT constant per name (binding by name between caller and callee)
+			return SV{Term: e.G.UF("ghost_"+x.Name, nil, SInt), Typ: types.Typ[types.Int]}
+		}
 		e.fail("unknown identifier %s", x.Name)
 	case SIntLit:
 		return SV{Term: x.V, Typ: types.Typ[types.Int]}
@@ -791,6 +795,36 @@ func (e *SpecEnv) evalCall(x SCall) SV {
 		return SV{Term: e.G.structEq(a, b, e.Cur), Typ: boolT}
 	case "unchangedHeap":
 		return SV{Term: e.G.unchangedAll(e.Old, e.Cur, nil), Typ: boolT}
+	case "unchangedBelow":
+		// unchangedBelow(b): every heap agrees with its entry version on every object/array whose id is below b
+		return SV{Term: e.G.unchangedAllBound(e.Old, e.Cur, nil, arg(0).Term), Typ: boolT}
+	case "above":
+		// above(x, b): the object / backing array / map x refers to is nil (empty) or has an id >= b
+		v, b := arg(0), arg(1)
+		switch v.Typ.Underlying().(type) {
+		case *types.Slice:
+			return SV{Term: fmt.Sprintf("(or (= (sarr %s) 0) (>= (sarr %s) %s))", v.Term, v.Term, b.Term), Typ: boolT}
+		case *types.Interface:
+			return SV{Term: fmt.Sprintf("(or (= (iref %s) nil) (not (alloc (iref %s) %s)))", v.Term, v.Term, b.Term), Typ: boolT}
+		}
+		r := e.refOf(v)
+		return SV{Term: fmt.Sprintf("(or (= %s nil) (not (alloc %s %s)))", r, r, b.Term), Typ: boolT}
+	case "owned":
+		// owned(x, b): everything reachable from x along the Go type (the traversal of deepcopy, shared fields
+		// excepted) is nil or has an id >= b: the freshness half of deepcopy with an explicit bound
+		a, b := arg(0), arg(1)
+		ne := e.clone()
+		if _, inSpec := e.Cur.(*recView); inSpec {
+			e.fail("owned() inside a spec function")
+		}
+		ne.Next0 = b.Term
+		return SV{Term: ne.deepcopy(a, a, nil, 0), Typ: boolT}
+	case "live":
+		// live(p): p is allocated now
+		return SV{Term: fmt.Sprintf("(alloc %s %s)", e.refOf(arg(0)), e.Cur.Next()), Typ: boolT}
+	case "isElem":
+		// isElem(p): p points into a slice backing array (not a separately allocated object)
+		return SV{Term: fmt.Sprintf("((_ is elem) %s)", e.refOf(arg(0))), Typ: boolT}
 	case "unchangedExcept":
 		// unchangedExcept("T.f", "U.g", ...): every heap but the listed is equal on allocated refs
 		ex := map[string]bool{}
